@@ -110,6 +110,48 @@ pub fn run_c01(tier: &str, seed: u64, model: &Model, corpus: Vec<Case>) -> Repor
     }
     let cases = kmer_cases(tier, &mut rng, &mut rep);
     run_section(&mut rep, model, "kmers", cases, &impl_kmers, &judge_kmers);
+    if tier == "thorough" && !sharded() {
+        // one record of more than 2^31 bytes: A^N followed by a short tail. Windows are local, so the expected stream is
+        // (0, 4^k - 1) for the N - k + 1 windows inside the homopolymer followed by the model's stream for A^(k-1) ++ tail.
+        let n: usize = (1usize << 31) + 1000;
+        let tail = b"CGTNACGGTTAACCGT".to_vec();
+        let mut big = vec![b'A'; n];
+        big.extend_from_slice(&tail);
+        for k in [1usize, 4, 21, 31] {
+            rep.evaluations += 1;
+            progress(&format!("giant record k={}", k));
+            let mut short = vec![b'A'; k - 1];
+            short.extend_from_slice(&tail);
+            let ans = model.query(&[format!("kmers {} {}", k, hex(&short))]);
+            let f: Vec<&str> = ans[0].split('|').collect();
+            let tail_items: Vec<(u64, u64)> = if f.len() >= 2 && f[0] == "ok" && !f[1].is_empty() {
+                f[1].split(',').map(|p| { let mut it = p.split(':'); (it.next().unwrap().parse().unwrap(), it.next().unwrap().parse().unwrap()) }).collect()
+            } else { vec![] };
+            let top = if k == 32 { u64::MAX } else { (1u64 << (2 * k)) - 1 };
+            let inside = n - k + 1;
+            let res = catch(std::panic::AssertUnwindSafe(|| {
+                let mut bad: Option<String> = None;
+                let mut count = 0usize;
+                for (i, it) in KmerGenerator::new(&big, k).enumerate() {
+                    let want = if i < inside { Some((0u64, top)) } else { tail_items.get(i - inside).copied() };
+                    if Some(it) != want && bad.is_none() {
+                        bad = Some(format!("item {} is {:?}, expected {:?}", i, it, want));
+                    }
+                    count += 1;
+                }
+                if bad.is_none() && count != inside + tail_items.len() {
+                    bad = Some(format!("{} items, expected {}", count, inside + tail_items.len()));
+                }
+                bad
+            }));
+            let bad = match res { Ok(b) => b, Err(p) => Some(format!("panicked: {}", p)) };
+            if let Some(d) = bad {
+                rep.push_fail("giant-record", format!("A^{} ++ \"{}\" at k = {}", n, show(&tail), k), format!("giantrecord {}", k), Fail { class: "spec", detail: d, theorem: "KT.kmerGen_eq_spec", impl_out: String::new(), model_out: String::new() }, 0);
+            } else {
+                rep.nontrivial.insert(format!("giantrecord {}", k));
+            }
+        }
+    }
     rep
 }
 
@@ -300,6 +342,18 @@ pub fn run_c02(tier: &str, seed: u64, model: &Model, corpus: Vec<Case>) -> Repor
         let mut c = Case::new("kmers", &[k], &s, tag);
         c.info = s.iter().any(|&b| b < 4);
         cases.push(c);
+    }
+    // an ambiguous byte (or the end of a gap) directly followed by 15..40 identical clean bases: whatever is skipped or
+    // fast-forwarded on one strand must be on the other
+    for &x in b"ACGTacgu" {
+        for run in [15usize, 16, 17, 31, 32, 33, 40] {
+            let k = *rng.pick(&[1u64, 4, 11, 21, 31]);
+            let mut s = gen::clean_seq(&mut rng, 12, gen::Flavor::Uniform);
+            s.extend_from_slice(if rng.chance(1, 2) { b"N" } else { b"NNNN" });
+            s.extend(std::iter::repeat(x).take(run));
+            s.extend(gen::clean_seq(&mut rng, 35, gen::Flavor::Uniform));
+            cases.push(Case::new("kmers", &[k], &s, "gap-then-homopolymer"));
+        }
     }
     // very long clean stretches (counters of the iterator running over tens of thousands of steps lose different windows on the
     // two strands): the stream of the reverse complement must still be the reversed, strand-swapped stream
